@@ -369,43 +369,35 @@ Section Stmt2.
   (* ---------------- scoped definitions ---------------- *)
   (* strict: evaluate the scope, add (node, name) -> x to the scoped store (fails on a duplicate);
      lazy: evaluate the scope lazily, allocate a thunk for the value, append the pair to the UNFORCED cell *)
-  Lemma scoped_def_core fuel le ll lf sc name x lvx ss p u ss' p' w ls pl :
-    fexpr2' true sc -> env_rel' le ll ->
-    (sv <- eval' fuel le sc ;; n <- scope_of sv ;; scoped_add_at n name x false) ss p = Ok (u, ss', p') ->
-    Rel2 w ss ls -> den2 w false lvx x -> nob pl ->
-    lres ((sv <- leval' lf ll sc ;; var <- store_add lvx (ll_ctx ll) ;; scoped_store_add sv name var (ll_ctx ll)) ls pl)
+  Lemma scoped_def_tail ctx n name x lvx slv s1 p1 u ss' p' w1 ls1 pl1 :
+    scoped_add_at n name x false s1 p1 = Ok (u, ss', p') ->
+    Rel2 w1 s1 ls1 -> den2 w1 true slv (VSyn n) -> den2 w1 false lvx x -> nob pl1 ->
+    lres ((var <- store_add lvx ctx ;; scoped_store_add slv name var ctx) ls1 pl1)
          (fun _ ls' pl' => nob pl' /\ RelX2 ss' ls').
   Proof.
-    intros Hf Henv H HR Hdx Hb.
-    apply bind_ok in H. destruct H as (sv & s1 & p1 & H1 & H). apply bind_ok in H. destruct H as (n & s2 & p2 & H2 & H3).
-    assert (Esv : sv = VSyn n /\ s2 = s1 /\ p2 = p1).
-    { unfold scope_of in H2. destruct sv; try discriminate. apply ret_ok in H2. destruct H2 as (-> & -> & ->). auto. }
-    destruct Esv as (-> & -> & ->). clear H2.
+    intros H3 HR1 Hds Hdx1 Hb1.
     destruct (scoped_add_ok _ _ _ _ _ _ _ _ H3) as (Lnone & Sg & Sl & Sp & Lnew & Lother).
-    apply lres_bind. eapply lres_mono; [apply (eval_sim2' fuel le ll sc true Hf Henv lf _ _ _ _ _ H1 w ls pl (proj1 HR) Hb)|].
-    intros slv ls1 pl1 HP1. destruct (rel_step2 _ w (VSyn n) ss s1 ls slv ls1 pl1 HR HP1) as (w1 & Hp1 & HR1 & Hds). unfold Qd in Hds.
-    pose proof (den2_mono call w w1 (wext0_wext _ _ Hp1) _ _ _ Hdx) as Hdx1.
     destruct HR1 as ((Hst1 & Hl1 & Hsc1) & Hcells1 & Hnd1 & Hss1 & HP).
     apply lres_bind. rewrite store_add_eq. cbn [lres].
     set (loc := length (l_store ls1)).
     set (sig2 := w_sig w1 ++ [(n, name, loc)]).
     set (w2 := W (w_rho w1 ++ [(x, false)]) sig2).
-    destruct (Sfull_add call w1 sig2 (l_store ls1) lvx x false (ll_ctx ll) Hst1 Hdx1 (prefix_app _ _)) as (Hx12 & Hst2 & Hnew). fold w2 in Hx12, Hst2, Hnew.
+    destruct (Sfull_add call w1 sig2 (l_store ls1) lvx x false (ctx) Hst1 Hdx1 (prefix_app _ _)) as (Hx12 & Hst2 & Hnew). fold w2 in Hx12, Hst2, Hnew.
     assert (Hsf : forall name', sig_for name' sig2 = sig_for name' (w_sig w1) ++ (if str_eqb name' name then [(n, loc)] else [])).
     { intros name'. unfold sig2. rewrite sig_for_app. f_equal. unfold sig_for. cbn [filter fst snd]. destruct (str_eqb name' name); reflexivity. }
     (* the cell of `name` *)
     unfold scoped_store_add. apply lres_bind. unfold cell_get. apply lres_get. apply lres_ret. cbn [set_store l_scoped].
     pose proof (Hcells1 name) as Hcell.
-    assert (Hpair : pair_ok call w2 (slv, LVar (N.of_nat loc), ll_ctx ll) (n, loc)).
+    assert (Hpair : pair_ok call w2 (slv, LVar (N.of_nat loc), ctx) (n, loc)).
     { split; [reflexivity|]. cbn [fst snd]. eapply den2_mono; [exact Hx12|exact Hds]. }
     assert (Hfin : forall pairs', (match alist_get name (l_scoped ls1) with
-                                   | Some (SVUnforced pairs) => pairs' = pairs ++ [(slv, LVar (N.of_nat loc), ll_ctx ll)]
+                                   | Some (SVUnforced pairs) => pairs' = pairs ++ [(slv, LVar (N.of_nat loc), ctx)]
                                    | Some _ => False
-                                   | None => pairs' = [(slv, LVar (N.of_nat loc), ll_ctx ll)]
+                                   | None => pairs' = [(slv, LVar (N.of_nat loc), ctx)]
                                    end) ->
-              lres (cell_set name (SVUnforced pairs') (set_store (l_store ls1 ++ [{| th_state := TUnforced lvx; th_dbg := ll_ctx ll |}]) ls1) pl1)
+              lres (cell_set name (SVUnforced pairs') (set_store (l_store ls1 ++ [{| th_state := TUnforced lvx; th_dbg := ctx |}]) ls1) pl1)
                    (fun _ ls' pl' => nob pl' /\ RelX2 ss' ls')).
-    { intros pairs' Hpairs'. unfold cell_set. apply lres_get. unfold set_lscoped, Lazy.upd. apply lres_modify. split; [apply HP1|].
+    { intros pairs' Hpairs'. unfold cell_set. apply lres_get. unfold set_lscoped, Lazy.upd. apply lres_modify. split; [exact Hb1|].
       exists w2. cbn [set_store l_graph l_locals l_store l_scoped l_edges l_attrs l_prints l_params l_prev]. split; [|split; [|split; [|split]]].
       - (* environments *)
         split; [exact Hst2|]. split; [rewrite Sl; eapply locals_rel2_mono; eauto|].
@@ -436,6 +428,25 @@ Section Stmt2.
         + inversion E; subst. rewrite Lnew. discriminate.
       - rewrite Sg. apply (Pend_mono w1 w2 _ ls1 _ Hx12); try reflexivity. exact HP. }
     destruct (alist_get name (l_scoped ls1)) as [[pairs| |mp]|]; try contradiction; apply Hfin; reflexivity.
+  Qed.
+
+
+  Lemma scoped_def_core fuel le ll lf sc name x lvx ss p u ss' p' w ls pl :
+    fexpr2' true sc -> env_rel' le ll ->
+    (sv <- eval' fuel le sc ;; n <- scope_of sv ;; scoped_add_at n name x false) ss p = Ok (u, ss', p') ->
+    Rel2 w ss ls -> den2 w false lvx x -> nob pl ->
+    lres ((sv <- leval' lf ll sc ;; var <- store_add lvx (ll_ctx ll) ;; scoped_store_add sv name var (ll_ctx ll)) ls pl)
+         (fun _ ls' pl' => nob pl' /\ RelX2 ss' ls').
+  Proof.
+    intros Hf Henv H HR Hdx Hb.
+    apply bind_ok in H. destruct H as (sv & s1 & p1 & H1 & H). apply bind_ok in H. destruct H as (n & s2 & p2 & H2 & H3).
+    assert (Esv : sv = VSyn n /\ s2 = s1 /\ p2 = p1).
+    { unfold scope_of in H2. destruct sv; try discriminate. apply ret_ok in H2. destruct H2 as (-> & -> & ->). auto. }
+    destruct Esv as (-> & -> & ->). clear H2.
+    apply lres_bind. eapply lres_mono; [apply (eval_sim2' fuel le ll sc true Hf Henv lf _ _ _ _ _ H1 w ls pl (proj1 HR) Hb)|].
+    intros slv ls1 pl1 HP1. destruct (rel_step2 _ w (VSyn n) ss s1 ls slv ls1 pl1 HR HP1) as (w1 & Hp1 & HR1 & Hds). unfold Qd in Hds.
+    pose proof (den2_mono call w w1 (wext0_wext _ _ Hp1) _ _ _ Hdx) as Hdx1.
+    apply (scoped_def_tail (ll_ctx ll) n name x lvx slv s1 p1 u ss' p' w1 ls1 pl1 H3 HR1 Hds Hdx1 (proj1 HP1)).
   Qed.
 
   Lemma xsim2_scoped_val fuel le ll lf sc name x : fexpr2' true sc -> env_rel' le ll ->
